@@ -928,7 +928,11 @@ fn signature(kind: &str, obs: &Obs, faulted: &str) -> Option<String> {
       };
       let diag = if stage == "dmntk_model::parse" { "while parsing".to_string() } else { diagnose(faulted, stage == "ModelEvaluator::new") };
       let family = kind.split(':').next().unwrap_or(kind);
-      if diag == "no requirement cycle found" {
+      if diag == "no requirement cycle found" && stage == "evaluate_invocable" {
+        // requirements are acyclic (cyclic ones are rejected by ModelEvaluator::new): the
+        // recursion is inside the FEEL expressions (a function body invoking itself)
+        Some(format!("process {} ({}) in {}: {}, unbounded recursion in FEEL expressions", obs.stage, how, stage, diag))
+      } else if diag == "no requirement cycle found" {
         Some(format!("process {} ({}) in {}: {} (fault family '{}')", obs.stage, how, stage, diag, family))
       } else {
         Some(format!("process {} ({}) in {}: {}", obs.stage, how, stage, diag))
